@@ -87,7 +87,7 @@ fn cross_exhaustive(ctx: &Ctx, r: &mut Report) {
 }
 
 fn cross_random(ctx: &Ctx, r: &mut Report) {
-	let n = ctx.pick(200, 4000);
+	let n = ctx.pick(1500, 4000);
 	for k in 0..n {
 		if !ctx.mine(k) {
 			continue;
@@ -270,7 +270,7 @@ fn reversal_random(ctx: &Ctx, r: &mut Report) {
 		for &(l, rt) in &[(1usize, 252usize), (252, 1), (126, 127), (127, 126), (1, 1), (100, 153), (200, 53), (2, 250)] {
 			pairs.push((l, rt));
 		}
-		while pairs.len() < 400 {
+		while pairs.len() < 2000 {
 			let l = 1 + rng.below(252) as usize;
 			let rt = 1 + rng.below((maxsum - l) as u64) as usize;
 			pairs.push((l, rt));
@@ -288,8 +288,8 @@ fn reversal_random(ctx: &Ctx, r: &mut Report) {
 	}
 	r.cell("reversal:pairs-up-to-253");
 	// long streams
-	let nlong = ctx.pick(6u64, 50);
-	let long_len = ctx.pick(100_000usize, 1_000_000);
+	let nlong = ctx.pick(16u64, 50);
+	let long_len = ctx.pick(300_000usize, 1_000_000);
 	for k in 0..nlong {
 		if !ctx.mine(k + 7) {
 			continue;
